@@ -14,7 +14,8 @@ THEOREMS = ["C19_guard_sound", "C19_guard", "C19_guard_args", "C19_all_exact", "
             "C19_reorder_keeps_everything", "C19_example"]
 
 EMITS = ["class", "function", "argparse", "json_schema", "pydantic", "sqlalchemy", "sqlalchemy_table", "sqlalchemy_hybrid"]
-NAMES = ["Alpha", "Beta", "Gamma", "Delta", "Omega"]
+# (valid identifiers that are soft keywords / builtins / lower case included: the symbol name and the __all__ entry are computed at two sites)
+NAMES = ["Alpha", "Beta", "Gamma", "Delta", "Omega", "match", "case", "type", "print", "record2"]
 TPLS = [("", ""), ("", "Gen"), ("Pre", ""), ("My", "Config")]
 ATTRS = [("x", "int", "5"), ("name", "str", '"n"'), ("flag", "bool", "True"), ("ratio", "float", "0.5"),
          ("maybe", "Optional[int]", "None"), ("kind", "Literal['a', 'b']", '"a"'), ("items", "List[str]", "None")]
@@ -70,6 +71,16 @@ def case_worker(case):
         src, entries = gen_input(rng, opts["typing"])
         inp = os.path.join(tree, "input_mod.py")
         open(inp, "w").write(src)
+        if opts.get("json_input"):
+            # the input mapping is one JSON-schema document (explicit --parse json_schema), under a .json or another extension
+            import json as _json
+            inp = os.path.join(tree, opts["json_input"])
+            _json.dump({"$id": "https://example.com/person.schema.json", "$schema": "https://json-schema.org/draft/2020-12/schema",
+                        "description": "A person", "type": "object",
+                        "properties": {"first": {"description": "first name", "type": "string"},
+                                       "age": {"default": 3, "description": "age in years", "type": "integer"}},
+                        "required": ["first"]}, open(inp, "w"))
+            entries = [(opts["json_input"], ["first", "age"])]
         out = os.path.join(tree, "generated.py" if opts["emit"] != "json_schema" else "generated.json")
         pre, suf = opts["tpl"]
         argv = ["cdd", "gen", "--name-tpl", pre + "{name}" + suf, "--input-mapping", inp, "--parse", opts["parse"],
@@ -99,6 +110,36 @@ def case_worker(case):
             if r["rc"] == 0 and not opts.get("tilde"):
                 res["problems"].append({"clause": "gen did not refuse although the output file exists (phase 0)",
                                         "cls": "C19/overwrite-exit0"})
+            return res
+        if opts.get("json_input"):
+            if before.get(opts["json_input"]) != after.get(opts["json_input"]):
+                res["problems"].append({"clause": "gen modified its input file", "cls": "C19/input-modified"})
+            if r["rc"] != 0:
+                res["crashed"] = True
+                res["problems"].append({"clause": "gen failed instead of writing the module", "error": res["err_tail"],
+                                        "cls": "C19/json-input/crash/" + opts["emit"]})
+                return res
+            text = open(out).read()
+            if opts["emit"] == "json_schema":
+                return res
+            try:
+                mod = ast.parse(text)
+                compile(text, out, "exec")
+            except SyntaxError as e:
+                res["problems"].append({"clause": "the written module does not compile", "detail": str(e), "cls": "C19/json-input/compile/" + opts["emit"]})
+                return res
+            syms = top_level_symbols(mod)
+            allv = None
+            for node in mod.body:
+                if isinstance(node, ast.Assign) and any(isinstance(t, ast.Name) and t.id == "__all__" for t in node.targets):
+                    allv = ast.literal_eval(node.value)
+            defs = [s_ for s_ in syms if not s_.isupper()]
+            if len(defs) != 1:
+                res["problems"].append({"clause": "the module does not define exactly one symbol for the one entry", "symbols": syms,
+                                        "cls": "C19/json-input/symbol-count/" + opts["emit"]})
+            elif allv != defs:
+                res["problems"].append({"clause": "__all__ does not list exactly the generated symbol", "all": allv, "symbols": syms,
+                                        "cls": "C19/json-input/all-is-the-file-name-not-the-symbol/" + opts["emit"]})
             return res
         if before.get("input_mod.py") != after.get("input_mod.py"):
             res["problems"].append({"clause": "gen modified its input file", "cls": "C19/input-modified"})
@@ -191,6 +232,10 @@ def gen_cases(ctx):
         for prepend in (2, 3):
             cases.append((rng.randrange(1 << 30), {"emit": emit, "parse": "class", "tpl": ["", "Cfg"], "infer_imports": True, "prepend": prepend,
                                                    "no_word_wrap": False, "out_exists": False, "tilde": False, "typing": "uniform"}))
+    for fname in ("person.json", "person.schema", "order.jsonschema"):
+        for emit in ("class", "argparse", "json_schema"):
+            cases.append((rng.randrange(1 << 30), {"emit": emit, "parse": "json_schema", "tpl": ["", "Cfg"], "infer_imports": False, "prepend": 0,
+                                                   "no_word_wrap": False, "out_exists": False, "tilde": False, "typing": False, "json_input": fname}))
     return cases
 
 
